@@ -399,3 +399,46 @@ theorem runCall_positionsOk (H : Hasher Node VH) (E : Env) (hW : WorkWf E.W) (p 
             · simp [positionsOk_append, storeCommit_positionsOk E hW, positionsOk]
 
 end Nomt.Api.Pipe
+
+namespace Nomt.Api.Pipe
+open Nomt Nomt.Api
+
+/-! ### the order of ALL steps of a call against the step markers of hook H14 merged with the I/O events -/
+
+def Pos.name : Pos → String
+  | .rbAppend => "io@rbAppend" | .preMeta => "io@preMeta" | .metaWrite => "io@metaWrite" | .metaFsync => "io@metaFsync"
+  | .postMeta => "io@postMeta"
+
+/-- the steps the hook reports by name (`none`: a step inside another module / a task, not reported) -/
+def Step.name : Step → Option String
+  | .guardWrite => some "guard_write"
+  | .guardTry _ => some "guard_try"
+  | .poisonCheck _ => some "poison_check"
+  | .markerCheck _ => some "marker_check"
+  | .rootCheck _ => some "root_check"
+  | .rootSet => some "root_set"
+  | .markCommitted => some "mark_committed"
+  | .rbTruncate => some "rb_truncate"
+  | .sessionFinish _ => some "session_finish"
+  | .seqnIncr => some "seqn_incr"
+  | .poison => some "poison"
+  | .io pos _ _ => some pos.name
+  | .rbLockTry _ | .rbPush | .kvStage | .rbTrim | .indexSwap => none
+
+/-- consecutive I/O operations of one position are one item -/
+def compressIo : List String → List String
+  | a :: b :: r => if a == b && a.startsWith "io@" then compressIo (b :: r) else a :: compressIo (b :: r)
+  | l => l
+
+/-- the skeleton of a model trace; `withIo = false`: the steps of the calling thread only -/
+def skeleton (withIo : Bool) (t : List Step) : List String :=
+  compressIo ((t.filterMap Step.name).filter (fun s => withIo || !s.startsWith "io@"))
+
+/-- the skeleton of a real sequence `s:<name>` / `io:<file>:<Kind>:<site>`; `none`: an unknown label -/
+def skeletonOfReal (withIo : Bool) (items : List String) : Option (List String) :=
+  (items.mapM (fun (it : String) =>
+    if it.startsWith "s:" then some (it.drop 2).toString
+    else if it.startsWith "io:" then (ioOfLabel (it.drop 3).toString).map (fun l => l.pos.name)
+    else none)).map (fun l => compressIo (l.filter (fun s => withIo || !s.startsWith "io@")))
+
+end Nomt.Api.Pipe
